@@ -116,6 +116,36 @@ func (s *Symbolizer) frameOf(c *Ctx) *frame {
 	return fr
 }
 
+// canonParamName: the printed name of an unbound parameter. A method receiver is printed by a fixed letter
+// derived from its type (Task → t, Process → p, ...), whatever the source calls it, so that rules which speak
+// about "the task's InIPs" ($t.InIPs) do not depend on the spelling of a receiver.
+// ParamName is the exported form of canonParamName.
+func ParamName(x *ssa.Parameter) string { return canonParamName(x) }
+
+func canonParamName(x *ssa.Parameter) string {
+	fn := x.Parent()
+	if fn == nil || fn.Signature.Recv() == nil || len(fn.Params) == 0 || fn.Params[0] != x {
+		return x.Name()
+	}
+	switch typeName(deref(x.Type())) {
+	case "Task":
+		return "t"
+	case "Process", "BaseProcess", "Sink":
+		return "p"
+	case "FileIP", "BaseIP":
+		return "ip"
+	case "Workflow":
+		return "wf"
+	case "InPort", "OutPort":
+		return "pt"
+	case "InParamPort":
+		return "pip"
+	case "OutParamPort":
+		return "pop"
+	}
+	return x.Name()
+}
+
 func lit(sv string) *Sym { return &Sym{Op: "lit", Lit: sv} }
 
 func (s *Symbolizer) sym(fr *frame, v ssa.Value) *Sym {
@@ -159,7 +189,7 @@ func (s *Symbolizer) sym1(fr *frame, v ssa.Value) *Sym {
 				return fr.args[i]
 			}
 		}
-		return &Sym{Op: "param", Name: x.Name()}
+		return &Sym{Op: "param", Name: canonParamName(x)}
 	case *ssa.FreeVar:
 		for i, f := range fr.fn.FreeVars {
 			if f == x {
